@@ -394,6 +394,10 @@ def merge_render_with_diff3(b, l, r, strategy=None):
         # The sides only differed in the final newline
         return l, 0
     merged, status = external_merge_render(cmd.split(), b, l, r)
+    if status not in (0, 1):
+        # diff3 exits with 0 (clean), 1 (conflicts) or 2 (trouble, e.g. for
+        # text it considers binary). Fall back to the builtin renderer.
+        return builtin_merge_render(b, l, r, strategy)
     if added_newline and merged.endswith('\n'):
         # Neither side ended with a newline, so neither should the result
         merged = merged[:-1]
